@@ -51,6 +51,18 @@ CLAIMED['C01'] = dict(
     technique='contract-based deductive verification: symbolic execution of real encode/decode, loop invariants, fold '
               'lemmas, z3/cvc5')
 
+CLAIMED['C02'] = dict(
+    text='Deductive proof: (a) for every class and every valid value the real encode() equals the printer transcribed from '
+         'PS3.8 9.3 / PS3.7 D.3.3 (field order, widths, big-endian, type codes, each length field = bytes it governs) and '
+         'total_length() = bytes emitted; item lists through the fold-extensionality lemma whose pointwise premise is an '
+         'obligation; (b) every conformant encoding is the image of a structured value under that printer (any item order, '
+         'generic sub-items), so by (a) the converse direction is the round-trip obligation set, generated and discharged '
+         'again under this property.',
+    ref='4/C02',
+    note=TRUST + 'spec/ps38_layouts.py (transcription of the standard) is the oracle; text fields ASCII; AE titles <= 16 '
+         'characters without pad characters at the ends',
+    technique='contract-based deductive verification: real encode vs reference printer, round trip, fold lemmas, z3/cvc5')
+
 NOT_YET = {
 }
 
